@@ -149,9 +149,9 @@ inline std::string jwk_json(const KeySpec &k, const JwkOpts &o) {
     if (!o.priv || o.okp_priv_with_x) { l = sizeof buf; EVP_PKEY_get_raw_public_key(k.pkey, buf, &l); add("x", std::string((char *)buf, l)); }
     if (o.priv) { l = sizeof buf; EVP_PKEY_get_raw_private_key(k.pkey, buf, &l); add("d", std::string((char *)buf, l)); }
   }
-  if (!o.alg.empty()) m += ",\"alg\":" + jstr(o.alg);
-  if (!o.kid.empty()) m += ",\"kid\":" + jstr(o.kid);
-  if (!o.use.empty()) m += ",\"use\":" + jstr(o.use);
+  if (!o.alg.empty()) m += ",\"alg\":" + jutf8(o.alg);
+  if (!o.kid.empty()) m += ",\"kid\":" + jutf8(o.kid);
+  if (!o.use.empty()) m += ",\"use\":" + jutf8(o.use);
   if (!o.key_ops.empty()) m += ",\"key_ops\":" + o.key_ops;
   if (!o.extra.empty()) m += "," + o.extra;
   return "{" + m + "}";
